@@ -15,6 +15,10 @@
 
 #include <unordered_set>
 
+#ifdef OPENSMT_VERIF
+#include <common/VerifTrace.h>
+#endif
+
 namespace opensmt {
 
 static SolverDescr descr_la_solver("LA Solver", "Solver for Quantifier Free Linear Arithmetics");
@@ -577,6 +581,20 @@ void LASolver::deduce(LABoundRef bound_prop) {
 
 
 void LASolver::getConflict(vec<PtAsgn> & conflict) {
+#ifdef OPENSMT_VERIF
+    if (veriftrace::on()) {
+        // "(la <solver> ((<atom> <true|false> <coefficient>) ...))": the conflict with its Farkas coefficients
+        std::string ev;
+        for (std::size_t i = 0; i < static_cast<std::size_t>(explanation.size()); ++i) {
+            PtAsgn lit = explanation[static_cast<int>(i)];
+            ev += "(" + logic.termToSMT2String(lit.tr) + (lit.sgn == l_True ? " true " : " false ")
+                + (i < explanationCoefficients.size() ? explanationCoefficients[i].get_str() : std::string("missing")) + ")";
+        }
+        char buf[32];
+        std::snprintf(buf, sizeof buf, "%p", static_cast<void const *>(this));
+        veriftrace::line(std::string("(la ") + buf + " (" + ev + "))");
+    }
+#endif
     for (PtAsgn lit : explanation) {
         conflict.push(lit);
     }
